@@ -14,6 +14,7 @@ import (
 	"log"
 	"os"
 	"runtime/debug"
+	"runtime/pprof"
 	"sync/atomic"
 	"time"
 
@@ -28,6 +29,7 @@ import (
 const horizon = 60 * time.Second
 
 var hung atomic.Bool
+var profiling bool
 
 func runOnce(c Case) (observed, bool) {
 	ch := make(chan observed, 1)
@@ -286,6 +288,13 @@ func main() {
 	log.SetOutput(io.Discard) // the client logs stream errors through the global logger
 	// the machine is shared: keep the heap small (report.Start raises the GC target to 2000%)
 	debug.SetGCPercent(200)
+	if pf := os.Getenv("C11_PROF"); pf != "" {
+		if f, err := os.Create(pf); err == nil {
+			_ = pprof.StartCPUProfile(f)
+			defer pprof.StopCPUProfile()
+			profiling = true
+		}
+	}
 	debug.SetMemoryLimit(1 << 30)
 	if err := os.MkdirAll("/verif/.work", 0o755); err != nil {
 		fmt.Fprintln(os.Stderr, err)
@@ -375,6 +384,9 @@ func main() {
 		"the client's map iteration order over form and file fields is not owned: parts are compared as multisets",
 	)
 	cleanup()
+	if profiling {
+		pprof.StopCPUProfile()
+	}
 	exhaustive := !hung.Load()
 	r.Finish("five full products (A nil/value/reader payloads; B URL-encoded forms; C1 one-file contents; C2 form structures; C3 names), each tuple executed once on Runtime.CreateHttpRequest and the sent body read to EOF; non-trivial = a non-nil payload produced a request whose sent bytes were parsed/compared with the reference (distinct by construction: the enumerators never repeat a tuple, sweeps differ in payload kind or shape)", exhaustive)
 }
